@@ -87,7 +87,7 @@ theorem block_types (H : List Nat) (types : List Nat) (hs : strictSorted types =
 
 theorem colRows_block (w : World) (H : List Nat) (a : Nat) (ar : Arch) (hw : w.Inv)
     (ha : w.archs[a]? = some ar)
-    (hz : ∀ r ∈ ar.rows.toList, ∀ c ∈ r.vals, 7 ≤ c.1 ∧ c.1 ≤ 9 → c.2 = 0) :
+    (hz : ∀ r ∈ ar.rows.toList, ∀ c ∈ r.vals, normVal c.1 c.2 = c.2) :
     let hs := H.filter (fun t => ar.types.contains t)
     colRows ar.rows.size (dedupSorted (sortNat hs))
       (hs.map (fun t => (t, ar.rows.toList.map (fun r => (lookupComp t r.vals).getD 0)))) =
@@ -118,10 +118,7 @@ theorem colRows_block (w : World) (H : List Nat) (a : Nat) (ar : Arch) (hw : w.I
   intro c hc
   rw [(lookupComp_eq_some_iff hnd).2 (show (c.1, c.2) ∈ _ from hc)]
   simp only [Option.getD_some]
-  unfold normVal
-  split
-  · rename_i h; exact (hz _ (List.getElem_mem hi) c hc h).symm
-  · rfl
+  exact hz _ (List.getElem_mem hi) c hc
 
 theorem arch_ids_nodup (w : World) (hw : w.Inv) (ar : Arch) (har : ar ∈ w.archs.toList) :
     (ar.rows.toList.map (·.id)).Nodup := by
